@@ -12,7 +12,7 @@ import os
 
 import numpy as np
 
-from .. import em, games, gm, seams
+from .. import em, games, gm, seams, simthreads
 from .. import prelude
 from ..core import Sim
 
@@ -30,7 +30,7 @@ REAL_VS_STUB = {"real": ["bounds (all registered computers)", "norms", "exploita
 ASSUMPTIONS = ["exact mode: interval monotonicity compared exactly; float mode: tolerance 1e-9*max(1,max|v|)",
                "exploitability is a cancelling sum: tolerance 1e-9*scale*2^n in both modes; norms 1e-12 relative",
                "hidden game's class is re-checked by the harness's independent predicates"]
-PROBES = ["large_n_path", "second_episode_on_same_object", "full_knowledge_reached", "torn_step_recovered", "probe_between_reveals", "sam_computer", "sa_computer",
+PROBES = ["reveal_overlapped_with_another_threads_step", "large_n_path", "second_episode_on_same_object", "full_knowledge_reached", "torn_step_recovered", "probe_between_reveals", "sam_computer", "sa_computer",
           "env_path", "object_path", "registry_game", "heavy_sam_computer"]
 TIERS = {
     "quick": {"runs": 30000, "wall": 40, "batch": 16, "shrink_s": 40},
@@ -177,8 +177,12 @@ def _episode(sim: Sim, n, comp_name, path, env, h, game, values, exact, scale, G
         d = sim.pick_weighted([("none", 6), ("probe", 2), ("torn", 1), ("evict", 1), ("other_use", 1), ("other_env", 1)], "disturbance")
         if d == "other_use":
             prelude.warm_process(sim, label="midrun")
+        overlapped = None
         if d == "other_env" and n <= 5 and other is not None:
-            other.act(a)
+            if sim.flip(1, 2, "in-another-thread"):
+                overlapped = other.thunk(a)  # the second client's call overlaps the reveal below (another thread)
+            if overlapped is None:
+                other.act(a)
         with sim.guard("C07.operation_raised"):
             if d == "evict":
                 seams.clear_memos()
@@ -227,7 +231,11 @@ def _episode(sim: Sim, n, comp_name, path, env, h, game, values, exact, scale, G
         sim.op("reveal", cid)
         with sim.guard("C07.operation_raised"):
             if path == "env":
-                ret = env.step(a)
+                if overlapped is not None:
+                    ret = simthreads.interleave(sim, [lambda: env.step(a), overlapped])[0]
+                    sim.probe("reveal_overlapped_with_another_threads_step")
+                else:
+                    ret = env.step(a)
                 # the gap the environment itself reports (what every consumer sees) obeys the same law
                 rep = -float(ret[1])
                 gt = 1e-9 * scale * 2 ** n
@@ -240,7 +248,12 @@ def _episode(sim: Sim, n, comp_name, path, env, h, game, values, exact, scale, G
                 reported.append(rep)
             else:
                 h.reveal(cid)
-                h.compute()
+                if overlapped is not None:
+                    simthreads.interleave(sim, [h.g.compute_bounds, overlapped])
+                    h.dirty = False
+                    sim.probe("reveal_overlapped_with_another_threads_step")
+                else:
+                    h.compute()
         revealed.append(a)
         new = games.arrays(game)
         g_new = gaps_of(sim, game, GAPS, scale, ctx)
